@@ -31,7 +31,7 @@ LAYOUTS = {"embedded": ("cli", None), "sibling": ("cli", "core"), "nested": ("pk
            "symlinked": ("pkgs.petstore", None),
            # a sibling core whose directory name starts with the client's directory name
            "sibling-prefix": ("petstore", "petstore_core")}
-TREES = ["absent", "equal", "different", "partial", "nocore", "namespace", "dot-only", "sib-equal", "sib-core-edited"]
+TREES = ["absent", "equal", "different", "partial", "nocore", "namespace", "dot-only", "sib-equal", "sib-core-edited", "indent-only", "nonpy-missing"]
 
 # ----------------------------------------------------------------------------------------------
 # audit-hook fault injector (installed once per worker process; inert unless armed)
@@ -120,6 +120,8 @@ def cases(tier, seed):
                         continue  # quick: forced runs over absent/equal/nocore trees, non-forced runs over every existing tree
                     if tree == "namespace" and (force or "." not in LAYOUTS[lay][0]):
                         continue
+                    if tree in ("indent-only", "nonpy-missing") and (force or lay not in ("embedded", "deep")):
+                        continue  # an up-to-date tree with ONE file re-indented / with only the generated non-Python files (py.typed, README.md) removed
                     if tree == "dot-only" and (force or lay not in ("embedded", "nested")):
                         continue  # the package directory exists but holds only hidden entries (.gitkeep): a non-force run must leave it alone
                     if tree in ("sib-equal", "sib-core-edited") and (force or LAYOUTS[lay][1] is None):
@@ -183,7 +185,7 @@ def prepare(base, case):
         for n in (".gitkeep", ".gitattributes"):
             with open(os.path.join(od, n), "w") as f:
                 f.write("* text=auto\n")
-    if case["tree"] in ("equal", "partial", "nocore", "namespace", "sib-equal", "sib-core-edited"):
+    if case["tree"] in ("equal", "partial", "nocore", "namespace", "sib-equal", "sib-core-edited", "indent-only", "nonpy-missing"):
         files, err = sandbox.generate(doc, root, output_package=out_pkg, core_package=core_pkg, force=True, no_postprocess=npp)
         if err is not None:
             raise HarnessError(f"could not prepare tree: {err}")
@@ -198,6 +200,15 @@ def prepare(base, case):
         shutil.rmtree(os.path.join(od, "mocks"))
         cd = pkgcheck.pkg_dir(root, core_pkg or out_pkg + ".core")
         os.unlink(os.path.join(cd, "utils.py"))
+    if case["tree"] == "indent-only":
+        from . import c09
+
+        c09.apply_drift("indent-only", os.path.join(pkgcheck.pkg_dir(root, out_pkg), "client.py"))
+    if case["tree"] == "nonpy-missing":
+        for dp, dn, fn in os.walk(pkgcheck.pkg_dir(root, out_pkg)):
+            for n in fn:
+                if not n.endswith(".py"):
+                    os.unlink(os.path.join(dp, n))
     if case["tree"] in ("sib-equal", "sib-core-edited"):
         # the direct path writes a client __init__.py that the comparison path does not produce (known finding); with that file emptied the
         # tree is what the comparison generates, so the outcome of the non-force run is decided by the core package alone
@@ -383,7 +394,7 @@ def check_run(case, label, fault_label, before, after, err, add):
         if not faulted:
             if case["tree"] in ("equal", "namespace", "sib-equal") and err is not None:
                 add(f"outcome|equal|{case['layout']}", "non-force run over an up-to-date tree does not succeed", f"{type(err).__name__}: {str(err)[:120]}")
-            if case["tree"] in ("different", "partial", "nocore", "sib-core-edited", "dot-only") and err is None:
+            if case["tree"] in ("different", "partial", "nocore", "sib-core-edited", "dot-only", "indent-only") and err is None:
                 add(f"outcome|{case['tree']}|{case['layout']}", "non-force run over a tree that differs from what would be generated reports success", "")
 
 
